@@ -11,27 +11,44 @@ prop("C18", "exploration",
      "deleted blocks, byte and bit edits); whenever the real decoder accepts the bytes as v and the encoder accepts v, decoding "
      "the re-encoding must give v again. Small finite sub-spaces are enumerated (all string lengths 0..600, all id types x label "
      "lengths 0..260, all grant types, all 256 flag / type bytes). Non-trivial (A) = some field at or just past a framing limit, "
-     "or an enum value without a named constant; (B) = an accepted input that differs from its own re-encoding; distinct by case hash.",
+     "or an enum value without a named constant; (B) = an accepted input that differs from its own re-encoding; distinct by case "
+     "hash. The exhaustive flag refers to the enumerated sweeps only. User-authentication requests travel over a real reliable "
+     "tube (muxer pair on an in-memory network inside a synctest bubble) because GetInitMsg demands one. Thorough tier adds native "
+     "fuzzing of the decode-encode-decode oracle for certificates, grant messages, frames, execution and port-forward requests.",
      ["times are whole seconds in [0, 2^62] (certificate and intent times are documented as Unix seconds >= 1970)",
       "decoders are handed fresh zero values (ReadFrom appends to an existing IDChunk)",
       "frames carry at most MaxFrameDataLength bytes and dataLength == len(data), as every constructor in tubes does; the "
-      "frame decoder is handed a buffer that continues past the frame, as Muxer.readMsg does",
+      "frame decoders are handed the bytes of one datagram (the frame, optionally followed by surplus bytes), as "
+      "Muxer.readMsg does; initiate frames take the muxer's parse-as-data-frame-first path only in the form the tubes "
+      "build them (no data, REQ or RESP set)",
       "port-forward addresses are the kinds ParseForward produces: TCP/UDP with an IP from net.ParseIP (or nil) and an integer "
       "port, Unix with net \"unix\"",
-      "32-bit length fields (codex) are not probed at their 4 GiB limit"],
+      "32-bit length fields (codex) are not probed at their 4 GiB limit; in the decode-encode-decode test of execution requests "
+      "the two length fields are kept below 1 MiB (GetCmd allocates whatever they say: the C11 finding, checked there)",
+      "frame decode-encode-decode inputs keep the length field within the datagram (beyond it is C11's subject)",
+      "a user-authentication request is built with a 4-byte header of which GetInitMsg reads 2: the two surplus zero bytes the "
+      "reader leaves unread are tolerated (both callers close the tube right after reading the name); anything else unread, or "
+      "more consumed than encoded, is reported",
+      "a nil result of the error-less encoders portforwarding.toBytes / userAuthInitMsg.toBytes counts as the encoder rejecting the value"],
      [dict(name="common", pkg="common", run="^TestVerifC18", shards=dict(quick=4, thorough=8), thorough_scale=100),
       dict(name="certs", pkg="certs", run="^TestVerifC18", shards=dict(quick=8, thorough=16), thorough_scale=100),
       dict(name="authgrants", pkg="authgrants", run="^TestVerifC18", shards=dict(quick=8, thorough=16), thorough_scale=100),
-      dict(name="tubes", pkg="tubes", run="^TestVerifC18", shards=dict(quick=8, thorough=16), thorough_scale=100),
       dict(name="codex", pkg="codex", run="^TestVerifC18", shards=dict(quick=8, thorough=16), thorough_scale=100),
       dict(name="portforwarding", pkg="portforwarding", run="^TestVerifC18", shards=dict(quick=8, thorough=16), thorough_scale=100),
+      dict(name="userauth", pkg="userauth", run="^TestVerifC18", shards=dict(quick=8, thorough=16), thorough_scale=30),
       dict(name="keys", pkg="keys", run="^TestVerifC18", shards=dict(quick=4, thorough=8), thorough_scale=50),
+      dict(name="tubes", pkg="tubes", run="^TestVerifC18", shards=dict(quick=8, thorough=16), thorough_scale=100),
+      dict(name="fuzz-certs", kind="fuzz", pkg="certs", targets=["FuzzVerifC18Certificate"], fuzztime=45, thorough_only=True),
+      dict(name="fuzz-authgrants", kind="fuzz", pkg="authgrants", targets=["FuzzVerifC18AgMessage"], fuzztime=45, thorough_only=True),
+      dict(name="fuzz-codex", kind="fuzz", pkg="codex", targets=["FuzzVerifC18ExecInit"], fuzztime=45, thorough_only=True),
+      dict(name="fuzz-portforwarding", kind="fuzz", pkg="portforwarding", targets=["FuzzVerifC18PFPacket"], fuzztime=45, thorough_only=True),
+      dict(name="fuzz-tubes", kind="fuzz", pkg="tubes", targets=["FuzzVerifC18Frame"], fuzztime=45, thorough_only=True),
       ],
-     exhaustive_core=False,
+     exhaustive_core=True,
      text="Round-trip search over every wire codec: generated values (edge-biased field lengths, all enum bytes) are encoded by "
           "the real encoder and decoded by the real decoder from a stream that continues with sentinel bytes, so that a wrapped "
           "length prefix shows up as a value or consumed-length mismatch; mutated encodings that the decoder accepts are "
           "re-encoded and decoded again and must be stable.",
      note="trusts rapid and field-by-field comparison written from the struct definitions; 4 GiB fields not exercised",
-     technique="property-based round-trip and decode-encode-decode testing (rapid) with small exhaustive sweeps",
+     technique="property-based round-trip and decode-encode-decode testing (rapid) with small exhaustive sweeps; native fuzzing in the thorough tier",
      design="DESIGN.md section 4, C18")
